@@ -1,7 +1,103 @@
 (* C11 property theorems: ONLY statements closed by `exact`, each followed by Print Assumptions. *)
 From Coq Require Import List Arith Bool PeanoNat.
-From DuneV Require Import C11_Model C11_Spec C11_Proofs.
+From DuneV Require Import C11_Model C11_Spec C11_Proofs C11_Proofs_AL C11_Proofs_SL C11_Proofs_LRU C11_Proofs_RV C11_Proofs_BV.
 Import ListNotations.
+
+(* ---- ArrayList<T,N> (purge as in fixes/C11-1.patch): for every element type, chunk size N (N <= 0 acts as 1) and
+   every history of push_back / eraseToHere / purge / clear / operator[] assignment / holding an iterator that respects
+   the documented preconditions (spec run has no None), the chunked model never dereferences a null or missing chunk
+   and shows after EVERY operation exactly size(), the element sequence (by iteration = by operator[]) and the value
+   under the held iterator that the plain list shows; held iterators survive push_back (the spec keeps its index). *)
+Theorem C11_arraylist_refines :
+  forall (T : Type) (d : T) (N : nat) (ops : list (c11_al_op T)) (tr : list (c11_al_obs T)),
+    c11_als_run T ([], None) ops = map Some tr ->
+    c11_al_run T d N true (c11_al_empty T, None) ops = map C11_ok tr.
+Proof. exact c11_arraylist_refines_lemma. Qed.
+Print Assumptions C11_arraylist_refines.
+
+Example C11_arraylist_refines_nonvacuous :
+  (exists tr, c11_als_run nat ([], None) c11_ex_al_ops = map Some tr /\ length tr = length (c11_als_run nat ([], None) c11_ex_al_ops))
+  /\ nth 5 (c11_als_run nat ([], None) c11_ex_al_ops) None = Some (5, [1; 2; 3; 4; 5], Some 3).
+Proof. split; [exact (c11_somes_tr (c11_als_run nat ([], None) c11_ex_al_ops) (eq_refl true)) | vm_compute; reflexivity]. Qed.
+
+(* ---- SLList<T> at pointer level (heap of nodes, sentinel beforeHead_ at address 0, tail_, size_, fresh-address allocator;
+   operator= as in fixes/C11-2.patch): for every element type with any equality test and every history over two lists of
+   push_back / push_front / pop_front / clear / ModifyIterator insert and remove at any position and at endModify() /
+   iterator insertAfter and deleteNext / assignment, self-assignment, copy construction, the model never touches a null or
+   freed node, never runs out of fuel (clear, iteration), and shows after EVERY operation exactly size(), empty(), the element
+   sequence of both lists and the results of == and != that two plain lists show. *)
+Theorem C11_sllist_refines :
+  forall (T : Type) (d : T) (teq : T -> T -> bool) (ops : list (c11_sl_op T)) (tr : list (c11_sl_obs T)),
+    c11_sls_run T teq ([], []) ops = map Some tr ->
+    c11_sl_run T d teq true (c11_sl_empty T d, c11_sl_empty T d) ops = map C11_ok tr.
+Proof. exact c11_sllist_refines_lemma. Qed.
+Print Assumptions C11_sllist_refines.
+
+Example C11_sllist_refines_nonvacuous :
+  (exists tr, c11_sls_run nat Nat.eqb ([], []) c11_ex_sl_ops = map Some tr /\ length tr = length (c11_sls_run nat Nat.eqb ([], []) c11_ex_sl_ops))
+  /\ nth 9 (c11_sls_run nat Nat.eqb ([], []) c11_ex_sl_ops) None = Some ((4, false, [0; 7; 1; 5]), (4, false, [0; 7; 1; 5]), true, false).
+Proof. split; [exact (c11_somes_tr (c11_sls_run nat Nat.eqb ([], []) c11_ex_sl_ops) (eq_refl true)) | vm_compute; reflexivity]. Qed.
+
+(* ---- lru<Key,Tp> (node list with node identities + key index; insert(key,data) as in fixes/C11-3.patch): for every value type
+   and every history of insert / touch / pop_front / pop_back / resize / clear that respects the documented preconditions
+   (no pop on an empty cache, resize only shrinks), the model never follows a dangling index entry and shows after EVERY
+   operation the returned reference (or RangeError for touching an absent key), size(), front(), back() and find(k) for
+   all observed keys exactly as the recency-ordered association list with unique keys does; inserting a present key
+   replaces its value and makes it most recent. *)
+Theorem C11_lru_refines :
+  forall (V : Type) (nkeys : nat) (ops : list (c11_lru_op V)) (tr : list (c11_lru_obs V)),
+    c11_lrus_run V nkeys ([], LruVoid V) ops = map Some tr ->
+    c11_lru_run V true nkeys (c11_lru_empty V, LruVoid V) ops = map C11_ok tr.
+Proof. exact c11_lru_refines_lemma. Qed.
+Print Assumptions C11_lru_refines.
+
+Example C11_lru_refines_nonvacuous :
+  (exists tr, c11_lrus_run nat 3 ([], LruVoid nat) c11_ex_lru_ops = map Some tr /\ length tr = length (c11_lrus_run nat 3 ([], LruVoid nat) c11_ex_lru_ops))
+  /\ nth 2 (c11_lrus_run nat 3 ([], LruVoid nat) c11_ex_lru_ops) None = Some (LruVal _ 7, 2, Some (7, 6), [Some (0, 7); Some (1, 6); None]).
+Proof. split; [exact (c11_somes_tr (c11_lrus_run nat 3 ([], LruVoid nat) c11_ex_lru_ops) (eq_refl true)) | vm_compute; reflexivity]. Qed.
+
+(* ---- ReservedVector<T,n> (std::array storage + size_): for every element type with any == and <, every capacity n and every
+   history over two vectors of push_back / pop_back / resize / clear / operator[] assignment / fill / (count,value) and range
+   construction / swap / assignment / at() that respects the documented preconditions (no push_back on a full vector, sizes
+   <= n), the model never leaves its storage and after EVERY operation its observation (size, elements by iteration, front, back,
+   ==, <, result or std::out_of_range of at()) matches the capacity-bounded vector.  Values exposed by a GROWING resize are
+   unspecified in the spec (None; the code leaves stale contents, std::vector would value-initialise): c11_rv_obs_match
+   constrains only specified values, and a comparison is constrained only if it inspects specified values only. *)
+Theorem C11_reserved_refines :
+  forall (T : Type) (d : T) (teq tlt : T -> T -> bool) (n : nat) (ops : list (c11_rv_op T)) (tr : list (c11_rvs_obs T)),
+    c11_rvs_run T teq tlt n ([], [], None) ops = map Some tr ->
+    exists mtr, c11_rv_run T d teq tlt n (c11_rv_empty T d n, c11_rv_empty T d n, None) ops = map C11_ok mtr /\
+                Forall2 (c11_rv_obs_match T) mtr tr.
+Proof. exact c11_reserved_refines_lemma. Qed.
+Print Assumptions C11_reserved_refines.
+
+Example C11_reserved_refines_nonvacuous :
+  (exists tr, c11_rvs_run nat Nat.eqb Nat.ltb 3 ([], [], None) c11_ex_rv_ops = map Some tr /\
+              length tr = length (c11_rvs_run nat Nat.eqb Nat.ltb 3 ([], [], None) c11_ex_rv_ops))
+  /\ nth 2 (c11_rvs_run nat Nat.eqb Nat.ltb 3 ([], [], None) c11_ex_rv_ops) None
+     = Some ((3, [Some 1; Some 2; None], Some (Some 1, None)), (0, [], None), (Some false, Some false, Some true), None).
+Proof. split; [exact (c11_somes_tr (c11_rvs_run nat Nat.eqb Nat.ltb 3 ([], [], None) c11_ex_rv_ops) (eq_refl true)) | vm_compute; reflexivity]. Qed.
+
+(* ---- BitSetVector<bs>: PARTIAL.  Full statement (NOT proved; checked only by the correspondence run, 0 disagreements):
+     forall bs >= 1, ops, tr,  c11_bvs_run bs [] ops = map Some tr -> c11_bv_run bs [] ops = map C11_ok tr
+   i.e. every history of resize / clear / setAll / unsetAll / per-block set, reset, flip, assignment from bool, bitset or another
+   block, &=, |=, ^=, <<=, >>= shows the blocks, count() and countmasked(j) of the list of std::bitset<bs>.
+   Missing: the invariants of the per-bit loops (operator=(bitset), getRepr, set()/flip() loops), resize/concat and the counting lemmas.
+   Proved: the addressing core every one of those loops is built from - reading / writing bit j of block i through the one
+   flat vector<bool> reads / writes bit j of the i-th block and leaves all other blocks (and all block lengths) unchanged. *)
+Theorem C11_bitset_addressing_partial :
+  forall (bs : nat) (w : list (list bool)) (i j : nat) (b : list bool) (v : bool),
+    c11_bv_wf bs w -> nth_error w i = Some b -> j < bs ->
+    c11_bv_getBit bs (concat w) i j = C11_ok (nth j b false) /\
+    c11_bv_setBit bs (concat w) i j v = C11_ok (concat (c11_set_nth w i (c11_set_nth b j v))) /\
+    c11_bv_wf bs (c11_set_nth w i (c11_set_nth b j v)).
+Proof. exact c11_bitset_addressing_lemma. Qed.
+Print Assumptions C11_bitset_addressing_partial.
+
+Example C11_bitset_addressing_nonvacuous :
+  c11_bv_wf 3 [[true; false; true]; [false; false; false]] /\
+  c11_bv_setBit 3 (concat [[true; false; true]; [false; false; false]]) 1 2 true = C11_ok [true; false; true; false; false; true].
+Proof. split; [exact (c11_bv_wf_dec 3 [[true; false; true]; [false; false; false]] (eq_refl true)) | vm_compute; reflexivity]. Qed.
 
 (* ---- refutations of the snapshot code (each witness is replayed on the implementation by checks/C11.py, corpus/C11) *)
 Theorem C11_arraylist_snapshot_refuted :
